@@ -2,8 +2,10 @@ pub mod routing;
 pub mod c01;
 pub mod c02;
 pub mod c03;
+pub mod c04;
 pub mod c05;
 pub mod c06;
+pub mod c07;
 pub mod c17;
 pub mod rolling;
 pub mod c09;
@@ -21,9 +23,11 @@ pub fn run(ctx: &Ctx) -> Option<Report> {
         "C01" => c01::run(ctx),
         "C02" => c02::run(ctx),
         "C03" => c03::run(ctx),
+        "C04" => c04::run(ctx),
         "C05" => c05::run(ctx),
         "C06" => c06::run(ctx),
         "C17" => c17::run(ctx),
+        "C07" => c07::run(ctx),
         "C09" => c09::run(ctx),
         "C10" => c10::run(ctx),
         "C11" => c11::run(ctx),
@@ -41,9 +45,11 @@ pub fn replay(id: &str, case: &serde_json::Value) -> Option<Result<(), String>> 
         "C01" => c01::replay(case),
         "C02" => c02::replay(case),
         "C03" => c03::replay(case),
+        "C04" => c04::replay(case),
         "C05" => c05::replay(case),
         "C06" => c06::replay(case),
         "C17" => c17::replay(case),
+        "C07" => c07::replay(case),
         "C09" => c09::replay(case),
         "C10" => c10::replay(case),
         "C11" => c11::replay(case),
